@@ -46,7 +46,7 @@ class StmtMixin(object):
             raise OutsideSubset('yield outside generator contract')
         val = self.ev(v.value, st)
         es = st.yielded.sort.elem
-        st.yielded = SV(st.yielded.sort, z3.Concat(st.yielded.t, z3.Unit(coerce(val, es).t)))
+        st.yielded = self.seq_append(st, st.yielded, coerce(val, es))
         if self.ct.rely:
             self.apply_rely(st, val)
 
@@ -351,6 +351,8 @@ class StmtMixin(object):
                 self.assume_type_invariant(st, st.env[name])
             elif isinstance(cur, SV):
                 raise OutsideSubset('loop-modified container %s needs a declared sort (contract locals)' % name)
+        if st.yielded is not None and any(isinstance(x, (ast.Yield, ast.YieldFrom)) for x in ast.walk(node)):
+            st.yielded = fresh(st.yielded.sort, 'yielded')          # what was yielded so far is loop state
         mods = self.modifies_sets(st.old, list(self.ct.modifies) + list(spec.modifies or []))
         havocked = set()
         for key, refs in mods.items():
